@@ -29,6 +29,62 @@ open NV.Gen.C12 in
 open NV.Gen.C12 in
 @[simp] theorem countCond_spec (b : Bool) : countCond b = b := rfl
 
+open NV.Gen.C12 in
+/-- backend blocks in the poller exactly when no occupied slot has CMD_IN_BUF (heart beat off) -/
+@[simp] theorem pollBlocks_spec (p : Bool) : pollBlocks p = !p := by cases p <;> rfl
+
+/-- network users are searched a slot from index 1 on (slot 0 is the console user's) -/
+theorem firstUserSlot_spec : NV.Gen.C12.firstUserSlot = 1 := rfl
+
+/-- the table really grows when it is full (otherwise `all_users[i]` would be written outside it) -/
+theorem growBy_pos : 0 < growBy := by decide
+
+open NV.Gen.C12 in
+/-- statement order of one iteration of backend()'s loop (clang AST of the working tree): reset of
+    current_interactive / eval_cost, shutdown test, remove_destructed_objects, slow shutdown, THEN the turn-grant loop
+    (which also counts connected_users and computes has_pending_commands), the timeout choice, do_comm_polling,
+    process_io when events are pending, the bounded command loop, heart beat, hook - the order `cycleStep` mirrors -/
+theorem backendOrder_spec : backendOrder =
+    ["BinaryOperator:current_interactive", "BinaryOperator:eval_cost", "IfStmt:g_proceeding_shutdown",
+     "CallExpr:remove_destructed_objects", "IfStmt:do_slow_shutdown,slow_shutdown_to_do",
+     "DeclStmt:has_pending_commands", "DeclStmt:connected_users",
+     "ForStmt:all_users,connected_users,has_pending_commands,iflags,max_users",
+     "IfStmt:has_pending_commands,heart_beat_flag,timeout,tv_sec", "BinaryOperator:do_comm_polling,nb,timeout",
+     "IfStmt:fatal,nb", "IfStmt:nb,process_io", "ForStmt:connected_users,process_user_command",
+     "IfStmt:call_heart_beat,heart_beat_flag", "IfStmt:verif_backend_cycle_hook"] := rfl
+
+open NV.Gen.C12 in
+/-- an uncaught error re-enters backend() in front of the loop: the iteration is abandoned, a new one starts
+    (`cycleRun`) -/
+theorem errorReentry_spec : errorReentry = "before-loop" := rfl
+
+open NV.Gen.C12 in
+/-- statement order of get_user_command(): scan loop, "no command" exit, command_giver, telnet_neg, next_cmd_in_buf,
+    CMD_IN_BUF cleared when nothing complete is left, second cursor step, NOECHO handling, last_time -
+    the order `getUserCommand` mirrors -/
+theorem gucOrder_spec : gucOrder =
+    ["DeclStmt:s_next_user", "DeclStmt:", "DeclStmt:ip", "DeclStmt:user_command", "DeclStmt:",
+     "ForStmt:all_users,first_cmd_in_buf,flush_message,iflags,ip,max_users,message_length,ob,s_next_user,user_command",
+     "IfStmt:ip,user_command", "BinaryOperator:command_giver,ip,ob", "CallExpr:telnet_neg,user_command",
+     "CallExpr:ip,next_cmd_in_buf", "IfStmt:cmd_in_buf,iflags,ip", "IfStmt:max_users,s_next_user",
+     "IfStmt:add_message,command_giver,iflags,ip", "BinaryOperator:ip,last_time", "ReturnStmt:"] := rfl
+
+open NV.Gen.C12 in
+/-- body of the scan loop: fetch the slot under the cursor, flush pending output, the CMD_IN_BUF / first_cmd_in_buf /
+    turn test, THEN the cursor step - the order `scanStep` + `scan` mirror -/
+theorem gucScanOrder_spec : gucScanOrder =
+    ["BinaryOperator:all_users,ip,s_next_user", "IfStmt:flush_message,ip,message_length,ob",
+     "IfStmt:first_cmd_in_buf,iflags,ip,user_command", "IfStmt:max_users,s_next_user"] := rfl
+
+open NV.Gen.C12 in
+/-- process_user_command(): one `if ((user_command = get_user_command ()))` block holding all the processing, then
+    the "no more commands" exit -/
+theorem pucOrder_spec : pucOrder =
+    ["DeclStmt:user_command", "DeclStmt:", "DeclStmt:", "DeclStmt:command_giver", "DeclStmt:ip", "DeclStmt:",
+     "BinaryOperator:",
+     "IfStmt:apply,call_function_interactive,command_giver,current_interactive,get_user_command,iflags,ip,print_prompt,process_command,user_command",
+     "BinaryOperator:", "BinaryOperator:command_giver", "BinaryOperator:current_interactive", "ReturnStmt:"] := rfl
+
 /-! ### finite maps -/
 
 theorem AMap.get_filter_ne {α : Type} [Inhabited α] (m : AMap α) (k i : Nat) (h : i ≠ k) :
@@ -212,10 +268,12 @@ theorem runOps_frame (sc : Scripts) (f : Nat) (w : World) (me : Nat) (ops : List
     | cons op rest =>
       -- the effect of the single op
       have hop : ∀ (w1 : World) (e1 : List Ev), Frame w w1 → (∀ u, ∀ e ∈ e1, Ev.isCmdOf u e = false) →
-          Frame w (if w1.alive me then ((runOps sc f w1 me rest).1, e1 ++ (runOps sc f w1 me rest).2) else (w1, e1)).1 ∧
-          ∀ u, ∀ e ∈ (if w1.alive me then ((runOps sc f w1 me rest).1, e1 ++ (runOps sc f w1 me rest).2) else (w1, e1)).2,
+          Frame w (if w1.thrown then (w1, e1) else if w1.alive me then ((runOps sc f w1 me rest).1, e1 ++ (runOps sc f w1 me rest).2) else (w1, e1)).1 ∧
+          ∀ u, ∀ e ∈ (if w1.thrown then (w1, e1) else if w1.alive me then ((runOps sc f w1 me rest).1, e1 ++ (runOps sc f w1 me rest).2) else (w1, e1)).2,
             Ev.isCmdOf u e = false := by
         intro w1 e1 hf he
+        split
+        · exact ⟨hf, he⟩
         split
         · obtain ⟨i1, i2⟩ := ih w1 me rest
           refine ⟨hf.trans i1, ?_⟩
@@ -261,6 +319,14 @@ theorem runOps_frame (sc : Scripts) (f : Nat) (w : World) (me : Nat) (ops : List
       | it =>
         apply hop
         · exact setCall_frame w me false
+        · intro u e hm; simp at hm; subst hm; rfl
+      | err =>
+        apply hop
+        · exact ⟨rfl, rfl, rfl, fun _ => rfl⟩
+        · intro u e hm; simp at hm; subst hm; rfl
+      | exec =>
+        apply hop
+        · exact Frame.refl w
         · intro u e hm; simp at hm; subst hm; rfl
 
 
@@ -317,7 +383,10 @@ theorem processUserCommand_spec (sc : Scripts) (w : World) (hs : Safe w) :
   obtain ⟨g1, g2, g3, g4⟩ := getUserCommand_spec w hs
   unfold processUserCommand
   rw [hs.1]
-  simp only [Bool.false_eq_true, if_false]
+  cases hthr : w.thrown with
+  | true => simp [hs]
+  | false =>
+  simp only [Bool.or_self, Bool.false_eq_true, if_false]
   cases hg : getUserCommand w with
   | mk w1 r =>
     rw [hg] at g1 g2 g3 g4
